@@ -3,6 +3,8 @@ package checks
 import (
 	"fmt"
 	"go/ast"
+	"go/token"
+	"go/types"
 	"sort"
 	"strings"
 
@@ -13,7 +15,7 @@ func init() {
 	register("C03", checkC03)
 	describe("C03", Meta{
 		Technique: "symbolic instruction-field algebra (LAYOUT): the field lists written by each Assembler, read by each Disassembler and declared by Op_get_instruction_len are extracted from the AST as linear forms over the architecture's widths and compared, in all four execution-mode cases; field provenance gives the range-check clause",
-		Claim:     "Decides structural clauses of C03 for every opcode type: (a) the nominal length declared by Op_get_instruction_len equals opcode bits plus the widths the Assembler appends, and the Assembler pads from exactly that length up to Max_word(); (b) every slice the Disassembler reads is a field the Assembler wrote (same offset, same width); (c) every field the Assembler appends is bounded by its width by construction (register lookup loop bounded by 2^width, Process_input/output/shared bounded by the port/object count) or the accepting function rejects words whose length is not Max_word(). (DECODEWIDTH) a base-2 strconv.Parse* used to decode bit strings parses at 64 bits and looks at its error. (L3K) the Disassembler prints a register/input/output field with the name function that inverts the Assembler's parser for it. Symbolic in every width, so all register sizes and R/N/M/L/O at once. Necessary conditions; Process_number's parsing and asm(disasm(w)) outside the assembler's image are not decided.",
+		Claim:     "Decides structural clauses of C03 for every opcode type: (a) the nominal length declared by Op_get_instruction_len equals opcode bits plus the widths the Assembler appends, and the Assembler pads from exactly that length up to Max_word(); (b) every slice the Disassembler reads is a field the Assembler wrote (same offset, same width); (c) every field the Assembler appends is bounded by its width by construction (register lookup loop bounded by 2^width, Process_input/output/shared bounded by the port/object count) or the accepting function rejects words whose length is not Max_word(). (RANGE) the index a Process_* helper turns into a field is bounded on both sides. (DECODEWIDTH) a base-2 strconv.Parse* used to decode bit strings parses at 64 bits and looks at its error. (L3K) the Disassembler prints a register/input/output field with the name function that inverts the Assembler's parser for it. Symbolic in every width, so all register sizes and R/N/M/L/O at once. Necessary conditions; Process_number's parsing and asm(disasm(w)) outside the assembler's image are not decided.",
 		Note:      "The Assembler idioms are the six shapes found in the tree (result/partial += zeros_prefix(W, get_binary(i) | partial), result += partial, result += \"0\" pad loop); an expression outside the recognised forms yields a '?' symbol and makes the obligation undecided.",
 		DesignRef: "DESIGN.md §1.5, §2 C03",
 	})
@@ -194,6 +196,7 @@ func checkC03(r *core.Run) {
 	}
 	r.Count("printer_kind_fields", kp)
 	decodeWidth(r, prog, "C03")
+	c03OperandRange(r, prog)
 	_ = sort.Strings
 }
 
@@ -265,4 +268,135 @@ func decodeWidth(r *core.Run, prog *core.Program, prop string) {
 		})
 	})
 	r.Count("base2_parses", n)
+}
+
+
+// c03OperandRange (C03/RANGE): the Process_* helpers turn an operand name into the binary index
+// that fills a field. L6 trusts them to return only indices of existing ports/objects, so the rule
+// looks inside: every get_binary(v) they return must have v bounded on BOTH sides — a counter of
+// `for v := 0; v < n; v++` / `for v := range n`, or a value tested against 0 and against the count on the
+// path. A parsed number checked only from above lets a negative index through: get_binary(-1) is the
+// text "-1", which fits a wide enough field and puts a '-' into the ROM word.
+func c03OperandRange(r *core.Run, prog *core.Program) {
+	pk := prog.Pkg("pkg/procbuilder")
+	info := pk.TypesInfo
+	n := 0
+	core.FuncDecls(pk, func(_ *ast.File, fd *ast.FuncDecl) {
+		if fd.Recv != nil || !strings.HasPrefix(fd.Name.Name, "Process_") {
+			return
+		}
+		// counters bounded by construction
+		counter := map[types.Object]bool{}
+		ast.Inspect(fd.Body, func(m ast.Node) bool {
+			switch x := m.(type) {
+			case *ast.ForStmt:
+				as, ok1 := x.Init.(*ast.AssignStmt)
+				be, ok2 := x.Cond.(*ast.BinaryExpr)
+				if ok1 && ok2 && len(as.Lhs) == 1 && len(as.Rhs) == 1 && be.Op == token.LSS {
+					if id, ok := as.Lhs[0].(*ast.Ident); ok {
+						if tv, ok := info.Types[as.Rhs[0]]; ok && tv.Value != nil && tv.Value.String() == "0" {
+							if cid, ok := ast.Unparen(be.X).(*ast.Ident); ok && info.ObjectOf(cid) == info.ObjectOf(id) {
+								counter[info.ObjectOf(id)] = true
+							}
+						}
+					}
+				}
+			case *ast.RangeStmt:
+				if b, ok := info.TypeOf(x.X).Underlying().(*types.Basic); ok && b.Info()&types.IsInteger != 0 {
+					if id, ok := x.Key.(*ast.Ident); ok {
+						counter[info.ObjectOf(id)] = true
+					}
+				}
+			}
+			return true
+		})
+		k := 0
+		ast.Inspect(fd.Body, func(m ast.Node) bool {
+			call, ok := m.(*ast.CallExpr)
+			if !ok || len(call.Args) != 1 {
+				return true
+			}
+			if c := core.CalleeOf(info, call); c == nil || c.Name() != "get_binary" {
+				return true
+			}
+			k++
+			n++
+			inst := fmt.Sprintf("C03/RANGE:%s:value%d", core.FuncKey(pk, fd), k)
+			arg := ast.Unparen(call.Args[0])
+			id, isID := arg.(*ast.Ident)
+			bounded := false
+			why := "the value is not a counter of a loop from 0 to the count"
+			if isID {
+				o := info.ObjectOf(id)
+				if counter[o] {
+					bounded = true
+				} else {
+					if b, ok := o.Type().Underlying().(*types.Basic); ok && b.Info()&types.IsUnsigned != 0 {
+						// unsigned: only the upper bound matters
+						lower := true
+						_ = lower
+					}
+					// both bounds tested somewhere in the function on this variable
+					lo, hi := false, false
+					ast.Inspect(fd.Body, func(k2 ast.Node) bool {
+						be, ok := k2.(*ast.BinaryExpr)
+						if !ok {
+							return true
+						}
+						x, xok := ast.Unparen(be.X).(*ast.Ident)
+						y, yok := ast.Unparen(be.Y).(*ast.Ident)
+						isV := func(i *ast.Ident, ok bool) bool { return ok && info.ObjectOf(i) == o }
+						zero := func(e ast.Expr) bool {
+							tv, ok := info.Types[e]
+							return ok && tv.Value != nil && tv.Value.String() == "0"
+						}
+						switch be.Op {
+						case token.GEQ:
+							if isV(x, xok) && zero(be.Y) {
+								lo = true
+							}
+							if isV(y, yok) && !zero(be.X) {
+								hi = true
+							}
+						case token.LSS:
+							if isV(x, xok) && !zero(be.Y) {
+								hi = true
+							}
+							if isV(y, yok) && zero(be.X) {
+								lo = true // 0 < v is stricter than needed but bounds below
+							}
+						case token.LEQ:
+							if isV(y, yok) && zero(be.X) {
+								lo = true
+							}
+						case token.GTR:
+							if isV(y, yok) && !zero(be.X) {
+								hi = true
+							}
+						}
+						return true
+					})
+					if b, ok := o.Type().Underlying().(*types.Basic); ok && b.Info()&types.IsUnsigned != 0 {
+						lo = true
+					}
+					bounded = lo && hi
+					switch {
+					case !lo && hi:
+						why = "it is tested against the count but never against 0 (a negative index passes)"
+					case lo && !hi:
+						why = "it is tested against 0 but never against the count"
+					case !lo && !hi:
+						why = "it is not tested against 0 nor against the count"
+					}
+				}
+			}
+			if bounded {
+				r.OK("C03/RANGE", inst, prog.Pos(call.Pos()), "the index turned into a field is bounded on both sides")
+			} else {
+				r.Violation("C03/RANGE", inst, prog.Pos(call.Pos()), fmt.Sprintf("%s returns get_binary(%s) for a value that is not bounded on both sides (%s): an operand naming a port or object that does not exist is encoded instead of rejected — get_binary of a negative number even yields a '-' character, which fits a wide enough field and ends up in the ROM word", core.FuncKey(pk, fd), types.ExprString(arg), why))
+			}
+			return true
+		})
+	})
+	r.Count("operand_index_conversions", n)
 }
